@@ -108,4 +108,6 @@ def cells(a):
     if isinstance(a, np.ndarray):
         p = a.view(np.ndarray)
         return [p[idx] for idx in np.ndindex(*p.shape)]
+    if type(a).__name__ == 'SymScalar':
+        return [object.__getattribute__(a, 'payload')]
     return [a]
